@@ -91,6 +91,12 @@ def catalog():
         "prog": {"setup": [build(man, 1, False), sub("f0"), ["add_cb", "f0", "slow", ["op", ["sleep", 1.0]]], sub("f1"), sub("f2"), ["sleep", 0.01]],
                  "threads": [[["sleep", 0.5], ["run", "ex", 0]], [["sleep", 2.5], ["runall", "ex"], ["sleep", 0.5], ["runall", "ex"]]],
                  "settle": 2, "final": [["runall", "ex"], ["sleep", 0.5]]}}
+    # blocking mode: a submit() parked on the full queue is released by the cancellation of a queued future (nothing completes)
+    out["T8/block-queued-cancel-releases-submitter"] = {
+        "count": 2, "block": True,
+        "prog": {"setup": [build(man, 2, True), sub("f0"), sub("f1"), ["sleep", 0.01], sub("f2"), sub("f3"), ["sleep", 0.01]],
+                 "threads": [[["sleep", 0.5], sub("f4")], [["sleep", 1.0], ["cancel", "f3"]]],
+                 "settle": 3, "final": [["runall", "ex"], ["sleep", 0.5], ["runall", "ex"], ["sleep", 0.5], ["runall", "ex"], ["sleep", 0.5]]}}
     out["T6/block-none"] = {
         "count": None, "block": True,
         "prog": {"setup": [build(man, None, True)],
@@ -258,7 +264,15 @@ def evaluate(case):
                 # it was parked: legal only while the queue held >= cap entries; find when the queue dropped below cap
                 t_free = None
                 pending = ahead
-                handed = sorted(taps[pos[p["op"][2] + ".fn"]]["t"] for p in pending if p["op"][2] + ".fn" in pos and taps[pos[p["op"][2] + ".fn"]]["seq"] > o["call_seq"])
+                handed = [taps[pos[p["op"][2] + ".fn"]]["t"] for p in pending if p["op"][2] + ".fn" in pos and taps[pos[p["op"][2] + ".fn"]]["seq"] > o["call_seq"]]
+                # a queued future also leaves the queue when it is cancelled (successfully, while still queued)
+                for p in pending:
+                    if p["op"][2] + ".fn" in pos:
+                        continue
+                    cs = [c for c in ops if c["op"][0] == "cancel" and c["op"][1] == p["op"][2] and c["result"] == ["ok", True] and c["ret_seq"] and c["ret_seq"] > o["call_seq"]]
+                    if cs:
+                        handed.append(min(c["ret_t"] for c in cs))
+                handed.sort()
                 need = qlen - cap + 1
                 if need <= 0:
                     t_free = o["call_t"]
